@@ -23,6 +23,9 @@ type Val struct {
 	Fn   *ast.FuncLit // closure literal
 	FnObj types.Object // func-typed parameter (callback)
 	Tuple []*Val
+	ArrOwner *types.Named // array-of-struct field of the object at T: elements are sub-objects
+	ArrField *types.Var
+	FreshSlice bool // slice made by make() in this activation and not yet shared
 	Inexact bool // derived from a rounded quotient / nudge: later arithmetic is covered by A-DIV / A-NUDGE, not by exactness
 }
 
@@ -101,6 +104,9 @@ type Exec struct {
 	assumedCalls map[string]bool
 	unfold int
 	iterState bool // function has iter protocol
+	heapTouched  map[string]*Term
+	heapMayWrite map[string]*Term
+	allocates    bool
 	curLoopUnfold int
 }
 
@@ -581,52 +587,50 @@ func (ex *Exec) box(st *State, x *Val, from types.Type) *Val {
 
 func (ex *Exec) addrOf(st *State, e ast.Expr) *Val {
 	switch x := e.(type) {
+	case *ast.ParenExpr:
+		return ex.addrOf(st, x.X)
 	case *ast.Ident:
 		obj := ex.info.ObjectOf(x)
+		if ex.w.isRefStruct(obj.Type()) {
+			v := ex.lookupVar(st, obj)
+			return tv(v.T, types.NewPointer(obj.Type()))
+		}
 		return &Val{Loc: obj, T: intLit(1), GoT: types.NewPointer(obj.Type()), Mag: -1}
 	case *ast.SelectorExpr:
-		// &p.embedded  (interior pointer at offset 0)
-		if sel, ok := ex.info.Selections[x]; ok {
-			if fv, ok := sel.Obj().(*types.Var); ok && fv.Embedded() {
-				base := ex.eval(st, x.X)
-				if pt, isPtr := ex.info.TypeOf(x.X).Underlying().(*types.Pointer); isPtr {
-					if owner, ok := pt.Elem().(*types.Named); ok {
-						return tv(ex.embRef(st, base.T, owner, fv), types.NewPointer(fv.Type()))
-					}
-				}
-			}
+		// &x.f with f a struct-typed field: the sub-object
+		if t := ex.info.TypeOf(x); ex.w.isRefStruct(t) {
+			v := ex.eval(st, x)
+			return tv(v.T, types.NewPointer(t))
+		}
+	case *ast.IndexExpr:
+		if t := ex.info.TypeOf(x); ex.w.isRefStruct(t) {
+			v := ex.eval(st, x)
+			return tv(v.T, types.NewPointer(t))
 		}
 	case *ast.CompositeLit:
-		// &T{...}: fresh heap object whose fields equal the literal
 		v := ex.evalComposite(st, x)
-		return ex.allocStruct(st, v)
+		if ex.w.isRefStruct(v.GoT) {
+			return tv(v.T, types.NewPointer(v.GoT))
+		}
+		// pointer to a value struct: fresh cell object holding the fields
+		named := namedOf(v.GoT)
+		if named != nil {
+			r := ex.allocObj(st, named)
+			stt := named.Underlying().(*types.Struct)
+			for i := 0; i < stt.NumFields(); i++ {
+				f := stt.Field(i)
+				ex.setField(st, r, named, f, tv(tField(v.T, f.Name()), f.Type()), ex.pos(e))
+			}
+			return tv(r, types.NewPointer(v.GoT))
+		}
 	}
 	panic(unsupported("address-of " + ex.pos(e)))
-}
-
-// allocStruct: a fresh non-nil reference whose (immutable) heap fields equal v's fields.
-func (ex *Exec) allocStruct(st *State, v *Val) *Val {
-	named, ok := v.GoT.(*types.Named)
-	if !ok {
-		panic(unsupported("alloc of unnamed struct"))
-	}
-	r := ex.fresh("new_"+named.Obj().Name(), SRef)
-	ex.assume(st, mk(">", SBool, r, intLit(0)))
-	ex.assume(st, mk("isfresh", SBool, r))
-	stt := named.Underlying().(*types.Struct)
-	for i := 0; i < stt.NumFields(); i++ {
-		f := stt.Field(i)
-		ex.assume(st, tEq(ex.loadField(r, named, f), tField(v.T, f.Name())))
-	}
-	ex.assume(st, tEq(dynType(r), ex.w.typeTag(types.NewPointer(named))))
-	return tv(r, types.NewPointer(named))
 }
 
 func (ex *Exec) deref(st *State, p *Val, at ast.Node) *Val {
 	if p.Loc != nil {
 		return ex.lookupVar(st, p.Loc)
 	}
-	// pointer param to scalar cell
 	pt, ok := p.GoT.Underlying().(*types.Pointer)
 	if !ok {
 		panic(unsupported("deref of non-pointer"))
@@ -639,13 +643,27 @@ func (ex *Exec) deref(st *State, p *Val, at ast.Node) *Val {
 			}
 		}
 	}
-	if named, ok := pt.Elem().(*types.Named); ok {
+	if named := namedOf(pt.Elem()); named != nil {
 		if _, ok := named.Underlying().(*types.Struct); ok {
 			ex.nonNil(st, p.T, ex.pos(at))
-			return ex.loadStruct(p.T, named)
+			if ex.w.isRefStruct(named) {
+				return tv(p.T, pt.Elem())
+			}
+			return ex.loadDT(st, p.T, named)
 		}
 	}
 	panic(unsupported("deref " + ex.pos(at)))
+}
+
+// loadDT reads a value struct stored behind a pointer.
+func (ex *Exec) loadDT(st *State, ref *Term, named *types.Named) *Val {
+	stt := named.Underlying().(*types.Struct)
+	s := ex.w.sortOf(named)
+	args := make([]*Term, stt.NumFields())
+	for i := 0; i < stt.NumFields(); i++ {
+		args[i] = ex.fieldVal(st, ref, named, stt.Field(i)).T
+	}
+	return tv(tMkDT(s, args...), named)
 }
 
 func (ex *Exec) nonNil(st *State, ref *Term, where string) {
@@ -654,40 +672,6 @@ func (ex *Exec) nonNil(st *State, ref *Term, where string) {
 	}
 	ex.safeN++
 	ex.oblige(st, "safe", fmt.Sprintf("safe.nil.%d", ex.safeN), tNot(tEq(ref, intLit(0))), where+": nil dereference")
-}
-
-// embRef: address of an embedded struct field inside the object at ref (non-nil when ref is).
-func (ex *Exec) embRef(st *State, ref *Term, owner *types.Named, f *types.Var) *Term {
-	r := embRefTerm(ref, owner, f)
-	if st != nil {
-		ex.assume(st, tImp(tNot(tEq(ref, intLit(0))), tNot(tEq(r, intLit(0)))))
-	}
-	return r
-}
-
-func embRefTerm(ref *Term, owner *types.Named, f *types.Var) *Term {
-	return mk("emb_"+shortPkgOf(owner)+"_"+owner.Obj().Name()+"_"+f.Name(), SRef, ref)
-}
-
-func (ex *Exec) loadField(ref *Term, owner *types.Named, f *types.Var) *Term {
-	if f.Embedded() {
-		if en, ok := f.Type().(*types.Named); ok {
-			if _, ok := en.Underlying().(*types.Struct); ok {
-				return ex.loadStruct(embRefTerm(ref, owner, f), en).T
-			}
-		}
-	}
-	return tSelect(ex.w.heapField(owner, f), ref)
-}
-
-func (ex *Exec) loadStruct(ref *Term, named *types.Named) *Val {
-	stt := named.Underlying().(*types.Struct)
-	s := ex.w.sortOf(named)
-	args := make([]*Term, stt.NumFields())
-	for i := 0; i < stt.NumFields(); i++ {
-		args[i] = ex.loadField(ref, named, stt.Field(i))
-	}
-	return tv(tMkDT(s, args...), named)
 }
 
 func (ex *Exec) evalSelector(st *State, e *ast.SelectorExpr) *Val {
@@ -710,7 +694,7 @@ func (ex *Exec) selectPath(st *State, base *Val, bt types.Type, path []int, at a
 	ct := bt
 	for _, idx := range path {
 		if pt, ok := ct.Underlying().(*types.Pointer); ok {
-			named := pt.Elem().(*types.Named)
+			named := namedOf(pt.Elem())
 			stt := named.Underlying().(*types.Struct)
 			f := stt.Field(idx)
 			if cur.Loc != nil {
@@ -718,15 +702,15 @@ func (ex *Exec) selectPath(st *State, base *Val, bt types.Type, path []int, at a
 				cur = tv(tField(lv.T, f.Name()), f.Type())
 			} else {
 				ex.nonNil(st, cur.T, ex.pos(at))
-				if f.Embedded() && isStructNamed(f.Type()) {
-					// interior pointer: a distinct reference derived from the owner's
-					cur = tv(ex.embRef(st, cur.T, named, f), types.NewPointer(f.Type()))
-					ct = cur.GoT
-					continue
-				}
-				cur = tv(ex.loadField(cur.T, named, f), f.Type())
-				ex.assume(st, ex.readFacts(cur))
+				cur = ex.fieldVal(st, cur.T, named, f)
 			}
+			ct = f.Type()
+			continue
+		}
+		if ex.w.isRefStruct(ct) {
+			named := namedOf(ct)
+			f := named.Underlying().(*types.Struct).Field(idx)
+			cur = ex.fieldVal(st, cur.T, named, f)
 			ct = f.Type()
 			continue
 		}
@@ -739,16 +723,10 @@ func (ex *Exec) selectPath(st *State, base *Val, bt types.Type, path []int, at a
 		cur = tv(tField(cur.T, f.Name()), f.Type())
 		if isFloat(f.Type()) {
 			cur.Mag = m
-		} else if f.Type().Underlying() != nil {
-			if _, ok := f.Type().Underlying().(*types.Struct); ok {
-				cur.Mag = m
-			}
+		} else if _, ok := f.Type().Underlying().(*types.Struct); ok {
+			cur.Mag = m
 		}
 		ct = f.Type()
-	}
-	// a pointer produced by interior selection needs deref when used as value: handled by callers
-	if pt, ok := ct.Underlying().(*types.Pointer); ok && cur.GoT != nil {
-		_ = pt
 	}
 	return cur
 }
@@ -779,6 +757,11 @@ func (ex *Exec) sliceLen(t *Term) *Term { return tField(t, "len") }
 func (ex *Exec) indexVal(st *State, base, idx *Val, at ast.Node) *Val {
 	where := ex.pos(at)
 	idxT := idx.T
+	if base.ArrField != nil {
+		arr := base.ArrField.Type().Underlying().(*types.Array)
+		ex.boundsCheck(st, idxT, intLit(arr.Len()), where)
+		return tv(elemRefTerm(base.T, base.ArrOwner, base.ArrField, idxT), arr.Elem())
+	}
 	var elemT types.Type
 	if base.GoT != nil {
 		switch u := base.GoT.Underlying().(type) {
@@ -858,6 +841,23 @@ func (ex *Exec) evalComposite(st *State, e *ast.CompositeLit) *Val {
 	t := ex.info.TypeOf(e)
 	switch u := t.Underlying().(type) {
 	case *types.Struct:
+		if ex.w.isRefStruct(t) {
+			named := namedOf(t)
+			r := ex.allocObj(st, named)
+			for i, el := range e.Elts {
+				if kv, ok := el.(*ast.KeyValueExpr); ok {
+					name := kv.Key.(*ast.Ident).Name
+					for j := 0; j < u.NumFields(); j++ {
+						if u.Field(j).Name() == name {
+							ex.setField(st, r, named, u.Field(j), ex.evalElt(st, kv.Value, u.Field(j).Type()), ex.pos(e))
+						}
+					}
+				} else {
+					ex.setField(st, r, named, u.Field(i), ex.evalElt(st, el, u.Field(i).Type()), ex.pos(e))
+				}
+			}
+			return tv(r, t)
+		}
 		s := ex.w.sortOf(t)
 		args := make([]*Term, u.NumFields())
 		mag := 0.0
@@ -1159,6 +1159,8 @@ func (ex *Exec) execStmt(st *State, s ast.Stmt) *Flow {
 				if i < len(vs.Values) {
 					v := ex.eval(st, vs.Values[i])
 					st.vars[obj] = ex.convertTo(st, v, obj.Type())
+				} else if ex.w.isRefStruct(obj.Type()) {
+					st.vars[obj] = tv(ex.allocObj(st, namedOf(obj.Type())), obj.Type())
 				} else {
 					z := tv(ex.zeroTerm(obj.Type()), obj.Type())
 					z.Mag = 0
@@ -1336,12 +1338,26 @@ func (ex *Exec) execAssign(st *State, s *ast.AssignStmt) {
 }
 
 func (ex *Exec) assignTo(st *State, lhs ast.Expr, v *Val) {
+	if _, isIdent := lhs.(*ast.Ident); !isIdent {
+		if ex.storeHeap(st, lhs, v) {
+			return
+		}
+	}
 	switch l := lhs.(type) {
 	case *ast.Ident:
 		if l.Name == "_" {
 			return
 		}
 		obj := ex.info.ObjectOf(l)
+		if ex.w.isRefStruct(obj.Type()) {
+			if cur, ok := st.vars[obj]; ok && v.T != cur.T {
+				// struct assignment copies into the variable's object
+				ex.copyObj(st, cur.T, v.T, namedOf(obj.Type()), ex.pos(lhs))
+				return
+			}
+			st.vars[obj] = tv(v.T, obj.Type())
+			return
+		}
 		v = ex.convertTo(st, v, obj.Type())
 		nv := *v
 		nv.GoT = obj.Type()
@@ -1391,6 +1407,21 @@ func (ex *Exec) assignTo(st *State, lhs ast.Expr, v *Val) {
 	case *ast.IndexExpr:
 		if id, ok := l.X.(*ast.Ident); ok {
 			obj := ex.info.ObjectOf(id)
+			if _, isSlice := obj.Type().Underlying().(*types.Slice); isSlice {
+				cur := ex.lookupVar(st, obj)
+				if cur.FreshSlice {
+					idx := ex.eval(st, l.Index)
+					ex.boundsCheck(st, idx.T, ex.sliceLen(cur.T), ex.pos(lhs))
+					arr := tField(cur.T, "arr")
+					nv := ex.convertTo(st, v, obj.Type().Underlying().(*types.Slice).Elem())
+					narr := tStore(arr, mk("+", SInt, tField(cur.T, "off"), idx.T), coerceTo(nv, arr.S.Elem))
+					r := tv(tMkDT(cur.T.S, ex.define("arr", narr), tField(cur.T, "off"), tField(cur.T, "len")), obj.Type())
+					r.FreshSlice = true
+					st.vars[obj] = r
+					return
+				}
+				panic(unsupported("store into a slice that is not a fresh local at " + ex.pos(lhs)))
+			}
 			if _, isArr := obj.Type().Underlying().(*types.Array); isArr {
 				cur := ex.lookupVar(st, obj)
 				idx := ex.eval(st, l.Index)
@@ -1669,6 +1700,7 @@ func (ex *Exec) execLoop(st *State, n int, node ast.Node, cond ast.Expr, body *a
 			head.ghost[k] = tv(ex.fresh("cell_"+k[1:], cur.T.S), cur.GoT)
 		}
 	}
+	ex.havocHeap(head, node)
 	oldUnfold := ex.curLoopUnfold
 	ex.curLoopUnfold = ls.Unfold
 	defer func() { ex.curLoopUnfold = oldUnfold }()
